@@ -15,7 +15,7 @@ CONSTANTS
   TreeIds = {1, 3, 5}
   SparseIds = {1, 2, 3, 4, 5, 6}
   XP = "respect"
-  Strict = TRUE
+  Strict = "all"
   Emit = FALSE
 INVARIANTS Inv_C23
 VIEW View
